@@ -121,6 +121,20 @@ def execute(ctx, cases, corr):
             corr["model_disagreements"].append(c)
         if c.oracle_applies and (not c.impl.startswith(c.oracle) if c.oracle_prefix else c.impl != c.oracle):
             corr["oracle_failures"].append(c)
+        elif getattr(c, "check_canon", None) and c.impl not in ("err", "-") and not c.impl.startswith(("panic", "bad", "abort")):
+            import canoncheck
+            hx = c.impl.split(" ")[-1] if c.check_canon == "last" else c.impl
+            try:
+                raw = bytes.fromhex(hx)
+            except ValueError:
+                raw = None
+            if raw is not None:
+                if c.check_canon == "resp":
+                    raw = raw[1:]           # status byte, then the body (empty body = no item at all)
+                why = canoncheck.check(raw) if raw else None
+                if why:
+                    c.oracle = "not canonical: " + why
+                    corr["oracle_failures"].append(c)
         elif getattr(c, "same_as", None) is not None and c.same_as.impl is not None and c.impl != c.same_as.impl:
             # the property itself: this message must decode exactly like its companion
             c.oracle = "same as: " + c.same_as.hline[:120] + " -> " + c.same_as.impl[:200]
@@ -989,9 +1003,79 @@ def cases_c05(ctx, boost):
     return out
 
 
+# =============================================================================== C03
+def cases_c03(ctx, boost):
+    out = []
+    for cfg in ctx.cfgs(("000", "111")):
+        g = ctx.gen(cfg)
+        rng = g.rng
+        for path, key, t in g.all_refs():
+            r = g.s.res(t)
+            if not r["caps"]["ser"] or not g.buildable(t):
+                continue
+            vals = []
+            if "fields" in r:
+                n = len(r["fields"])
+                usable = [i for i, f in enumerate(r["fields"]) if f["rust"] in r["rust"]["pub_fields"] and f["ser"] != "never"]
+                optional = [i for i in usable if g.s.is_opt_field(r, r["fields"][i])]
+                # every pair of members set together (required members are always set)
+                pairs = [(a, b) for a in optional for b in optional if a < b] or [(None, None)]
+                if len(pairs) > 120 and ctx.tier == "quick":
+                    pairs = rng.sample(pairs, 120) + [(a, a + 1) for a in optional[:-1] if a + 1 in optional]
+                for a, b in pairs:
+                    full = g.rand_val(t, p_opt=1.0)
+                    slots = [(full[1][i] if (i in usable and (i not in optional or i in (a, b))) else None) for i in range(n)]
+                    vals.append(('r', slots))
+                vals.append(g.rand_val(t, p_opt=1.0))
+            vals += [g.rand_val(t, 0.5) for _ in range(4 * boost)]
+            for v in vals:
+                if g.val_buildable(t, v):
+                    c = Case("enc", cfg, f"enc {cfg} {key} {show(v)}", f"enc {cfg} {path} {show(v)}", tag="pairs+random")
+                    c.check_canon = True
+                    out.append(c)
+        # integers across the 1/2/3/5/9-byte thresholds in a usize member of GetInfo, and whole responses
+        sj = ctx.data["schemas"][cfg]
+        for variant, payload in sj["variants"]["response_variants"]:
+            if payload is None:
+                continue
+            for v in resp_values(g, variant, payload, 6 * boost):
+                c = Case("resp", cfg, f"resp {cfg} {variant} {show(v)} 8192 -", tag="whole response")
+                c.check_canon = "resp"
+                out.append(c)
+        gi = [k for k in sj["types"] if k.endswith("get_info::Response")][0]
+        base = g.s.min_value({"named": gi})
+        names = [f["rust"] for f in g.s.res({"named": gi})["fields"]]
+        i = names.index("max_msg_size")
+        for n in [0, 23, 24, 255, 256, 65535, 65536, 2 ** 32 - 1, 2 ** 32, 2 ** 64 - 1]:
+            slots = list(base[1]); slots[i] = ('n', n)
+            c = Case("enc", cfg, f"enc {cfg} {gi} {show(('r', slots))}", f"enc {cfg} resp:GetInfo {show(('r', slots))}", tag="integer thresholds")
+            c.check_canon = True
+            out.append(c)
+    return out
+
+
 NOT_YET = {}
 
 PROPS = {
+    "C03": {"ns": "C03", "cases": cases_c03, "uses": ["e1", "canon_toC", "allKeysGt_toC", "canon_cCose"],
+            "level_text": "Proof. E1 (Ctap/Canon.lean): for every schema and every serialisable value the serializer model writes "
+                          "exactly encC (toC t v), the shortest-form definite-length encoding of one item of a universe that has "
+                          "no tags, floats, undefined or indefinite lengths. G-CANON (canon_toC): if every PAIR of serialisable "
+                          "members of every struct of the schema is declared in CTAP2 canonical key order (sortedKeys — the "
+                          "property's own sufficiency argument, proved: allKeysGt_toC), then for every subset of present members "
+                          "and every nesting level the item's map keys are strictly increasing (hence distinct); COSE keys 1,3,-1,"
+                          "-2,-3 are canonical for all four kinds. Obligations (decide +kernel): sortedKeys holds for all 6 "
+                          "response schemas, both authenticator-data extension maps and the 3 serialisable requests, in all 8 "
+                          "configurations. These obligations were false on the pinned tree for CtapOptions and Certifications "
+                          "under get-info-full: two genuine defects, repaired (known_findings.json). keyLt states the canonical "
+                          "order per key kind (numeric for shortest-form integer keys, (length, bytewise) for text keys); the "
+                          "correspondence checks the byte-level rule (major, encoded length, bytewise) on the real output with an "
+                          "independent checker.",
+            "rule": "every serialisable type × every pair of optional members set together (sampled to 120 pairs + all adjacent "
+                    "pairs in quick for GetInfo-full) + random values; whole responses through Response::serialize; integer "
+                    "thresholds; every real output byte string checked by tools/canoncheck.py",
+            "assumptions": ["keyLt on integer keys is numeric order = (length, bytewise) order of shortest-form heads (not proved "
+                            "at byte level in Lean; checked at byte level by the independent checker on every output)"]},
     "C05": {"ns": "C05", "cases": cases_c05,
             "uses": ["decHead_reserved", "readArg_nonminimal", "decHead_wrong_major", "bytes_exact", "str_exact", "vec_exact",
                      "uint_exact", "i32_exact", "byteArray_exact", "wrong_major_bytes", "wrong_major_str", "wrong_major_uint",
